@@ -10,7 +10,7 @@
     (each selectable sequential sorter at every depth with a common prefix).  The only hypothesis is that the
     fuelled functions return a result ([= Some _]; fuel exhaustion is the error value). *)
 From Coq Require Import List NArith Sorting.Permutation Sorting.Sorted.
-From TLXV Require Import C03.Model C03.Spec C03.SpecProofs C03.Lemmas C03.Sorters C03.LcpInsertion C03.Radix8 C03.Mkqs C03.PartTotal C03.MkqsTotal C03.Radix16 C03.InPlace C03.InPlace16 C03.Dispatch.
+From TLXV Require Import C03.Model C03.Spec C03.SpecProofs C03.Lemmas C03.Sorters C03.LcpInsertion C03.Radix8 C03.Mkqs C03.PartTotal C03.MkqsTotal C03.Radix16 C03.InPlace C03.InPlace16 C03.Dispatch C03.Radix8Total C03.Radix16Total C03.ClosedCE0.
 Import ListNotations.
 
 (** Any two outputs satisfying SortedPermLcp for the same input have the same contents at every position and the
@@ -155,6 +155,31 @@ Theorem C03_multikey_quicksort_closed : forall sz wl mem p l lcp,
                    OutOK wl l lcp out lcp'.
 Proof. exact mkqs_closed. Qed.
 Print Assumptions C03_multikey_quicksort_closed.
+
+(** The out-of-place 8-bit radix step (RadixStep_CE0 / CE2 with the loop over its buckets, which recurses, falls back
+    to multikey quicksort under memory pressure and to insertion sort for small buckets) returns for every input
+    once the fuel exceeds n + (longest string - depth): a bucket other than bucket 0 only holds strings longer than
+    the depth.  Hence radixsort_CE0 in closed form.  (The in-place steps, [ip = true], additionally depend on
+    ci_permute and are still covered by the per-case check only.) *)
+Theorem C03_radix8_out_of_place_total : forall sz wl fuel szstep mem s dep l lcp,
+  length l + (mlen l - dep) < fuel -> r8_step sz wl fuel false szstep mem s dep l lcp <> None.
+Proof. exact r8_step_total. Qed.
+Print Assumptions C03_radix8_out_of_place_total.
+
+Theorem C03_radixsort_CE0_closed : forall sz wl mem p l lcp,
+  Pre p l -> all_nulfree l -> length lcp = length l ->
+  exists out lcp', radixsort_CE0 sz wl (length l + mlen l + 8) mem (length p) l lcp = Some (out, lcp') /\
+                   OutOK wl l lcp out lcp'.
+Proof. exact radixsort_CE0_closed. Qed.
+Print Assumptions C03_radixsort_CE0_closed.
+
+(** ... and the out-of-place 16-bit radix step (RadixStep_CE3 with the loop over its 65536 buckets, which hands
+    buckets to the 8-bit step, to multikey quicksort, to insertion sort or to another 16-bit step, two characters
+    deeper) returns for every input under the same fuel bound. *)
+Theorem C03_radix16_out_of_place_total : forall sz wl fuel mem s dep l lcp,
+  length l + (mlen l - dep) < fuel -> r16_step sz wl fuel false mem s dep l lcp <> None.
+Proof. exact r16_step_total. Qed.
+Print Assumptions C03_radix16_out_of_place_total.
 
 (** The LCP boundary loop as shipped (704fd0b) reads bkt_size[256] when every string ends at the current depth
     (40 empty strings); the repaired loop (fixes/C03/01) yields exactly their LCPs. *)
